@@ -144,8 +144,8 @@ pub enum TrajEnd {
 
 pub struct Trajectory {
     pub steps: Vec<Step>,
-    /// dump[k] = displayed state after k steps (k = 0..=steps.len())
-    pub dumps: Vec<String>,
+    /// dumps[k] = displayed state after k steps, only for the k requested by `want`
+    pub dumps: std::collections::HashMap<usize, String>,
     /// location of the next command after k steps
     pub locs: Vec<usize>,
     pub end: TrajEnd,
@@ -159,7 +159,7 @@ pub fn safe_output(s: &str) -> bool {
 }
 
 /// run the program on the library interpreter in lock-step with the reference interpreter
-pub fn trajectory(text: &str, budget: usize) -> Result<Trajectory, Failure> {
+pub fn trajectory(text: &str, budget: usize, want: &dyn Fn(usize) -> bool) -> Result<Trajectory, Failure> {
     let codes = guarded("parse", || parse::parse(text.to_string()))?;
     let cmds = super::c01::model_cmds(&codes);
     let mut model = Model::new(cmds.clone(), "");
@@ -169,7 +169,10 @@ pub fn trajectory(text: &str, budget: usize) -> Result<Trajectory, Failure> {
         state.push_code(c.clone());
     }
     let mut reader = LineReader(Default::default());
-    let mut t = Trajectory { steps: Vec::new(), dumps: vec![format!("{:?}", state)], locs: vec![0], end: TrajEnd::Finished, exit_out: String::new(), exit_err: String::new(), exit_loc: 0 };
+    let mut t = Trajectory { steps: Vec::new(), dumps: Default::default(), locs: vec![0], end: TrajEnd::Finished, exit_out: String::new(), exit_err: String::new(), exit_loc: 0 };
+    if want(0) {
+        t.dumps.insert(0, format!("{:?}", state));
+    }
     let mut loc = 0usize;
     let mut slot = Some(state);
     loop {
@@ -212,7 +215,9 @@ pub fn trajectory(text: &str, budget: usize) -> Result<Trajectory, Failure> {
                     break;
                 }
                 t.steps.push(Step { loc, out: model.out[o0..].to_string(), err: model.err[e0..].to_string() });
-                t.dumps.push(format!("{:?}", st));
+                if want(t.steps.len()) {
+                    t.dumps.insert(t.steps.len(), format!("{:?}", st));
+                }
                 t.locs.push(next);
                 slot = Some(st);
                 loc = next;
@@ -227,7 +232,8 @@ pub fn trajectory(text: &str, budget: usize) -> Result<Trajectory, Failure> {
 pub enum Chunk {
     /// nothing that is compared (log / error wording)
     Ignore,
-    State(String),
+    /// the state after k steps must be displayed
+    State(usize),
     Next { index: usize, out: String, err: String },
     Run { out: String, err: String },
     Breakpoints(Vec<usize>),
@@ -356,7 +362,7 @@ pub fn simulate(t: &Trajectory, n_cmds: usize, history: &[Op]) -> Expected {
             }
             "s" | "state" => {
                 e.lines.push(line.clone());
-                e.chunks.push(Chunk::State(t.dumps[k].clone()));
+                e.chunks.push(Chunk::State(k));
                 e.flags.push("state shown");
             }
             "b" | "break" => {
@@ -521,7 +527,8 @@ fn listing_index(line: &str) -> Option<usize> {
 
 pub fn check(c: &Case11, st: &mut Stats, bin: &std::path::Path, scratch: &std::path::Path, budget: usize) -> CheckResult {
     let text = crate::refparse::render_canonical(&c.cmds);
-    let t = trajectory(&text, budget)?;
+    // pass 1: the trajectory without state dumps (rendering thousands of states is the expensive part) ...
+    let t = trajectory(&text, budget, &|_| false)?;
     if let TrajEnd::Unsupported(why) = t.end {
         st.exclude(why);
         return Ok(());
@@ -532,6 +539,9 @@ pub fn check(c: &Case11, st: &mut Stats, bin: &std::path::Path, scratch: &std::p
     }
     let n = c.cmds.len();
     let exp = simulate(&t, n, &c.history);
+    // ... pass 2: the same trajectory again, rendering only the states the history asks to see
+    let needed: std::collections::HashSet<usize> = exp.chunks.iter().filter_map(|c| if let Chunk::State(k) = c { Some(*k) } else { None }).collect();
+    let t = if needed.is_empty() { t } else { trajectory(&text, budget, &|k| needed.contains(&k))? };
     st.class_n("truncated runs (model budget)", exp.truncated_runs as u64);
     let mut script = exp.lines.join("\n");
     if !exp.lines.is_empty() {
@@ -584,7 +594,10 @@ pub fn check(c: &Case11, st: &mut Stats, bin: &std::path::Path, scratch: &std::p
                 ensure!(!lines.iter().any(|l| l.starts_with(cal.out_tag.as_str()) || l.starts_with(cal.err_tag.as_str())), "c11:output", "{}: program output shown where none is due: {:?}", at(), got);
             }
             Chunk::Eof => ensure!(got.is_empty(), "c11:eof", "{}: text after the last prompt: {:?}", at(), got),
-            Chunk::State(dump) => ensure!(got == dump, "c11:state", "{}: displayed state {:?} want {:?}", at(), got, dump),
+            Chunk::State(k) => {
+                let dump = t.dumps.get(k).cloned().unwrap_or_default();
+                ensure!(*got == dump, "c11:state", "{}: displayed state {:?} want {:?} (state after {} steps)", at(), got, dump, k)
+            }
             Chunk::Next { index, out, err } => {
                 ensure!(!lines.is_empty(), "c11:listing", "{}: no command listed", at());
                 ensure!(listing_index(lines[0]) == Some(*index), "c11:listing", "{}: listed {:?}, the command to execute is #{}", at(), lines[0], index);
